@@ -100,6 +100,8 @@ def grid_specs():
         "cid_switch": {"steps": [data(0, 40), data(1, 300), {"op": "ncid", "d": 1, "len": 8}, {"op": "ncid", "d": 0, "len": 5}, data(0, 41),
                                  {"op": "usecid", "d": 0, "i": 0}, data(0, 42), {"op": "usecid", "d": 1, "i": 0}, data(1, 301), data(1, 302), data(0, 43)]},
         "pn_gaps": {"steps": [data(0, 40, 3), data(1, 300, 200), data(0, 41, 70000), data(1, 301, 5000000), data(1, 302, 1, 4), data(0, 42, 0, 3)]},
+        "same_truncated_pn_one_direction": {"steps": [data(1, 300), {"op": "ping", "d": 1, "gap": 128}, data(1, 301, 126), data(0, 40), {"op": "ping", "d": 0, "gap": 127},
+                                                      data(0, 41, 127), data(1, 302), data(0, 42)]},   # server pn 1 / 130 / 257, client pn 0 / 128 / 256
         "same_pn_both_directions": {"steps": [data(0, 40), data(1, 300), data(0, 41), data(1, 301)]},
         "cid_lengths": {"dcid_len": 20, "c_scid_len": 4, "s_scid_len": 17},
         "suite_not_first": {"offered": "x"},
